@@ -2287,10 +2287,11 @@ class Side:
         self._export_disp_rowset('alphas', 'alpha', buffer, ind, size)
 
         buffer.write(f'{ind}\t\ttriangle_tags\n{ind}\t\t{{\n')
-        for y in range(size):
+        # One entry per quad: the last row and column of vertexes have no triangles.
+        for y in range(size - 1):
             row = [
                 f'{vert.triangle_a.value} {vert.triangle_b.value}'
-                for vert in self._disp_verts[size * y:size * (y+1)]
+                for vert in self._disp_verts[size * y:size * (y+1) - 1]
             ]
             buffer.write(f'{ind}\t\t"row{y}" "{" ".join(row)}"\n')
         buffer.write(ind + '\t\t}\n')
@@ -2299,8 +2300,9 @@ class Side:
         buffer.write(ind + '\t\t{\n')
         assert len(self.disp_allowed_vert) == 10, self.disp_allowed_vert
         buffer.write(f'{ind}\t\t"10" "{" ".join(map(str, self.disp_allowed_vert))}"\n')
-        buffer.write(f'{ind}\t\t}}\n{ind}\t}}\n')
+        buffer.write(f'{ind}\t\t}}\n')
 
+        # The multiblend arrays are part of the dispinfo block, that is where the parser looks for them.
         if disp_multiblend and any(vert.multi_blend for vert in self._disp_verts):
             self._export_disp_rowset('multiblend', 'multi_blend', buffer, ind, size)
             self._export_disp_rowset('alphablend', 'multi_alpha', buffer, ind, size)
@@ -2308,11 +2310,12 @@ class Side:
                 buffer.write(f'{ind}\t\tmultiblend_color_{i}\n{ind}\t\t{{\n')
                 for y in range(size):
                     row = [
-                        str(vert.multi_colors[i]) if vert.multi_colors is not None else '1'
+                        str(vert.multi_colors[i]) if vert.multi_colors is not None else '1 1 1'
                         for vert in self._disp_verts[size * y:size * (y+1)]
                     ]
                     buffer.write(f'{ind}\t\t"row{y}" "{" ".join(row)}"\n')
                 buffer.write(ind + '\t\t}\n')
+        buffer.write(f'{ind}\t}}\n')
 
     def _export_disp_rowset(self, name: str, membr: str, f: IO[str], ind: str, size: int) -> None:
         """Write out one of the displacement vertex arrays."""
